@@ -40,12 +40,31 @@ func loadTables() {
 			famIDs = append(famIDs, g...)
 		}
 	}
+	unlistedBases = nil
 	specialIDs = specialPool(append(append([]string{}, tblActive...), tblDeprecated...))
 	for _, f := range tblRanges { // the ends of every family and of every version group
 		specialIDs = append(specialIDs, f[0][0], f[len(f)-1][len(f[len(f)-1])-1])
 	}
+	// bases of listed `X-only` / `X-or-later` ids, listed themselves or not (`GFDL-1.1-invariants` is no id, but
+	// `GFDL-1.1-invariants+` is a spelling of a listed one)
+	have := map[string]bool{}
+	for _, x := range specialIDs {
+		have[x] = true
+	}
+	for _, x := range append(append([]string{}, tblActive...), tblDeprecated...) {
+		for _, suf := range []string{"-only", "-or-later"} {
+			if b := strings.TrimSuffix(x, suf); b != x && !activeSet[b] && !deprecatedSet[b] && !have[b] {
+				have[b] = true
+				specialIDs = append(specialIDs, b)
+				unlistedBases = append(unlistedBases, b)
+			}
+		}
+	}
 	specialExcs = specialPool(tblExceptions)
 }
+
+// unlistedBases: X such that X-only or X-or-later is listed but X is not
+var unlistedBases []string
 
 // specialPool: the ids a shortcut in the code is most likely to treat differently from the rest — first / last / shortest /
 // longest of the list, ids that are a prefix of another id, ids that contain an operator word or a suffix word inside,
@@ -813,4 +832,114 @@ func itoa(i int) string {
 		b = append([]byte{'-'}, b...)
 	}
 	return string(b)
+}
+
+// ---------------------------------------------------------------- non-ASCII, confusable and odd-whitespace texts
+
+// oddRunes: code points that Unicode-aware library functions treat specially — the two non-ASCII runes that case-fold to
+// ASCII letters (U+017F -> s, U+212A -> k), runes whose lower/upper-casing changes the byte length (U+023A, U+023E,
+// U+0130, U+00DF), letters and digits outside ASCII, the white space that TrimSpace / Fields / \s accept but the scanner
+// does not, and bytes that are not UTF-8 at all
+var oddRunes = []string{"\u017f", "\u212a", "\u023a", "\u023e", "\u0130", "\u0131", "\u00df", "\u00e9", "\u041c", "\uff11", "\u0660",
+	"\u00a0", "\u200b", "\u2028", "\ufeff", "\t", "\n", "\r", "\v", "\f", "\x00", "\x7f", "\xff", "\xc3", "\x85"}
+
+// confusable: the word with its first / last s, S, k, K replaced by the non-ASCII rune that folds to it
+func confusables(w string) []string {
+	var out []string
+	rep := map[byte]string{'s': "\u017f", 'S': "\u017f", 'k': "\u212a", 'K': "\u212a"}
+	first, last := -1, -1
+	for i := 0; i < len(w); i++ {
+		if _, ok := rep[w[i]]; ok {
+			if first < 0 {
+				first = i
+			}
+			last = i
+		}
+	}
+	for _, i := range []int{first, last} {
+		if i >= 0 {
+			out = append(out, w[:i]+rep[w[i]]+w[i+1:])
+		}
+	}
+	if first >= 0 && first == last {
+		out = out[:1]
+	}
+	return out
+}
+
+// unicodeStream: texts built from listed ids, exception ids and reference names with odd runes at the places a scanner
+// distinguishes (start, inside, end of a word; before '+', before a suffix, after a prefix, after WITH)
+func unicodeStream(nWords int) []string {
+	words := append([]string{"MIT", "ISC", "GPL-2.0", "Apache-2.0", "BSD-3-Clause", "zlib-acknowledgement", "SISSL"}, specialIDs...)
+	for len(words) < nWords {
+		words = append(words, genBaseID())
+	}
+	words = words[:nWords]
+	seen := map[string]bool{}
+	var out []string
+	add := func(x string) {
+		if !seen[x] {
+			seen[x] = true
+			out = append(out, x)
+		}
+	}
+	for wi, w := range words {
+		w = strings.TrimSuffix(w, "+")
+		for _, c := range confusables(w) {
+			add(c)
+			add(c + "+")
+			add("MIT AND " + c)
+			add("LicenseRef-" + c)
+		}
+		exc := tblExceptions[wi%len(tblExceptions)]
+		for _, c := range confusables(exc) {
+			add("MIT WITH " + c)
+		}
+		// a few odd runes per word, all of them over the whole stream
+		for j := 0; j < 4; j++ {
+			r := oddRunes[(wi*4+j)%len(oddRunes)]
+			mid := len(w) / 2
+			add(r + w)
+			add(w + r)
+			add(w[:mid] + r + w[mid:])
+			add(w + r + "+")
+			add(w + r + "-only")
+			add(w + r + "-or-later")
+			add(w + "-only" + r)
+			add(w + " " + r + " AND MIT")
+			add(w + r + "AND MIT")
+			add("LicenseRef-" + r)
+			add("LicenseRef-a" + r + "b")
+			add("DocumentRef-" + r + ":LicenseRef-a")
+			add(w + " WITH " + r + exc)
+			add(w + " WITH " + exc + r)
+			add("(" + r + w + ")")
+		}
+	}
+	// length-changing runes in bulk in front of a suffix or '+'
+	for _, r := range []string{"\u023a", "\u023e", "\u0130", "\u00df"} {
+		for _, n := range []int{1, 2, 5, 6, 9, 10, 11, 40} {
+			run := strings.Repeat(r, n)
+			add(run + "+")
+			add(run + "-only")
+			add(run + "-or-later")
+			add(run + "-or-later+")
+			add("GPL-2.0" + run + "+")
+			add("LicenseRef-" + run)
+		}
+	}
+	return out
+}
+
+// whitespaceLists: lists that hold the same text clean and padded with white space the scanner does not accept
+func whitespaceLists() [][]string {
+	var out [][]string
+	for _, x := range []string{"MIT", "Apache-2.0", "GPL-2.0-or-later WITH Classpath-exception-2.0", "LicenseRef-a"} {
+		for _, ws := range []string{"\t", "\n", "\r\n", "\u00a0", "\v", "\f", "\u2028", "\u200b", "\x00"} {
+			out = append(out,
+				[]string{x, x + ws}, []string{x + ws, x}, []string{ws + x, " " + x + " "}, []string{" " + x + " ", ws + x},
+				[]string{x, "ISC", x + ws, x}, []string{ws + x + ws, x, x + " "}, []string{x + " ", x + ws, x})
+		}
+	}
+	return out
 }
